@@ -258,6 +258,9 @@ unique_ptr<DiscreteDistributionInterface> BppODiscreteDistributionFormat::readDi
     {
       throw Exception("Unknown distribution: " + distName + ".");
     }
+    // Class values are medians (understood for every family with a class count).
+    if (args.find("median") != args.end())
+      rDist->setMedian(true);
   }
   if (verbose_)
   {
@@ -345,6 +348,10 @@ void BppODiscreteDistributionFormat::writeDiscreteDistribution(
       out << ",offset=" << gamma->getOffset();
       out.setPrecision(p);
     }
+    // Class values that are medians instead of means.
+    auto* abstractDist = dynamic_cast<const AbstractDiscreteDistribution*>(&dist);
+    if (abstractDist && abstractDist->isMedian())
+      out << ",median=1";
   }
 
   try
